@@ -1,5 +1,7 @@
 import CLModel.Proto
 import CLModel.Compare.AddRemove
+import CLModel.Compare.AddRemoveObj
+import CLModel.Compare.KeyedTuple
 namespace Ops.C20
 open Proto
 
@@ -27,6 +29,102 @@ def opKeyed (toks : List String) : String :=
     | _, _ => "bad-args"
   | _ => "bad-args"
 
+/-! ### round 4: the `AddRemove` object driven by operation sequences -/
+
+def showDiff (d : List (AR.Label × Nat)) : String :=
+  "[" ++ ",".intercalate (d.map (fun (lab, k) => showLabel lab ++ toString k)) ++ "]"
+
+/-- token of one object operation: `L:1,2` = set_left([1,2]), `R:` = set_right([]), `I` = list(ar) -/
+def parseObjOp (tok : String) : Option (C20M.Op Nat) :=
+  match tok.toList with
+  | ['I'] => some .iterate
+  | 'L' :: rest => (parseText (String.ofList ('t' :: rest))).map .setLeft
+  | 'R' :: rest => (parseText (String.ofList ('t' :: rest))).map .setRight
+  | _ => none
+
+def showOut : C20M.Out Nat → Option String
+  | none => none
+  | some (.ok d) => some (showDiff d)
+  | some (.error e) => some e
+
+/-- c20.sm <op> <op> ... : ONE `AddRemove()` instance, the operations in order; result = what every
+    `I` observed -/
+def opSM (toks : List String) : String :=
+  match toks.mapM parseObjOp with
+  | some ops => " ".intercalate ((C20M.Obj.trace C20M.Obj.init ops).filterMap showOut)
+  | none => "bad-args"
+
+/-- c20.specd <left> <right> : the closed form (duplicates allowed), natively -/
+def opSpecD (toks : List String) : String :=
+  match toks with
+  | [l, r] =>
+    match parseText l, parseText r with
+    | some l, some r => showDiff (C20M.specD l r)
+    | _, _ => "bad-args"
+  | _ => "bad-args"
+
+/-! ### round 4: one `KeyedTuple` instance queried by a sequence -/
+
+open C20K in
+def parseArg (cs : List Char) : Option (Arg Nat) :=
+  match cs with
+  | 'k' :: r => (natOfChars r).map .key
+  | 'i' :: r => (parseInt (String.ofList r)).map .int
+  | ['u'] => some .unhashable
+  | 'e' :: r => match splitChars ':' r with
+    | [k, i] => match natOfChars k, natOfChars i with
+      | some k, some i => some (.ent { key := k, id := i })
+      | _, _ => none
+    | _ => none
+  | 's' :: r => match splitChars ':' r with
+    | [lo, hi] =>
+      let p (x : List Char) : Option (Option Int) :=
+        if x.isEmpty then some none else (parseInt (String.ofList x)).map some
+      match p lo, p hi with
+      | some lo, some hi => some (.slice lo hi)
+      | _, _ => none
+    | _ => none
+  | _ => none
+
+/-- entities of a key list: the i-th has id `base + i` -/
+def mkEnts (base : Nat) (ks : List Nat) : List (C20K.Ent Nat) :=
+  ks.zipIdx.map (fun (k, i) => { key := k, id := base + i })
+
+open C20K in
+def parseQ (tok : String) : Option (Q Nat) :=
+  match tok.toList with
+  | 'g' :: r => (parseArg r).map .getitem
+  | 'c' :: r => (parseArg r).map .contains
+  | ['K'] => some .keys
+  | ['V'] => some .values
+  | ['I'] => some .items
+  | ['T'] => some .iter
+  | ['N'] => some .len
+  | 'A' :: r => (parseText (String.ofList ('t' :: r))).map (fun ks => .concat (mkEnts 100 ks))
+  | _ => none
+
+def showIds (es : List (C20K.Ent Nat)) : String := ",".intercalate (es.map (fun e => toString e.id))
+
+open C20K in
+def showRes : Res Nat → String
+  | .ent e => s!"E{e.id}"
+  | .tuple es => s!"tuple[{showIds es}]"
+  | .keyed es => s!"KeyedTuple[{showIds es}]"
+  | .bool b => toString b
+  | .keys ks => "keys[" ++ ",".intercalate (ks.map toString) ++ "]"
+  | .items kvs => "items[" ++ ",".intercalate (kvs.map (fun (k, e) => s!"{k}:{e.id}")) ++ "]"
+  | .len n => toString n
+  | .err e => e
+
+/-- c20.kt <keys> <query> ... : ONE `KeyedTuple`, the queries in order -/
+def opKT (toks : List String) : String :=
+  match toks with
+  | ks :: qs =>
+    match parseText ks, qs.mapM parseQ with
+    | some ks, some qs => " ".intercalate (((C20K.KT.new (mkEnts 0 ks)).run qs).map showRes)
+    | _, _ => "bad-args"
+  | _ => "bad-args"
+
 def ops : List (String × (List String → String)) :=
-  [("ar", opAR), ("keyed", opKeyed)]
+  [("ar", opAR), ("keyed", opKeyed), ("c20.sm", opSM), ("c20.specd", opSpecD), ("c20.kt", opKT)]
 end Ops.C20
